@@ -9,6 +9,14 @@ wt=/tmp/wt-seed-$name
 git -C /repo worktree remove --force $wt 2>/dev/null
 git -C /repo worktree add -q --detach $wt HEAD || exit 2
 if ! git -C $wt apply $d/patch.diff; then echo "SEEDED $name: PATCH DOES NOT APPLY"; git -C /repo worktree remove --force $wt; exit 2; fi
+# demonstration: must fail on the patched tree and pass on the clean one
+if [ -f $d/demo.py ] && [ -z "$SKIP_DEMO" ]; then
+  (cd $d && PYTHONPATH=$wt/src timeout 600 /venv/bin/python demo.py >/tmp/seed-demo-$name-patched.log 2>&1); rc1=$?
+  git -C $wt apply -R $d/patch.diff
+  (cd $d && PYTHONPATH=$wt/src timeout 600 /venv/bin/python demo.py >/tmp/seed-demo-$name-clean.log 2>&1); rc0=$?
+  git -C $wt apply $d/patch.diff
+  echo "  demo: exit $rc1 with the patch, exit $rc0 without"
+fi
 ids="$@"
 [ -z "$ids" ] && ids=$(python3 -c "import json;print(json.load(open('$d/meta.json'))['property'])")
 # baseline against the patched tree (PYTHONPATH first so that the worktree's sources are imported)
